@@ -3,6 +3,7 @@ C15 round 6 helper lemmas: the size of the ammo ring (repair 4cfc662: `config.Ch
 -/
 import Pandora.Proofs.C15Ring
 import Pandora.Proofs.C15Shoot
+import Pandora.Proofs.C15Verdict
 
 namespace Pandora.Proofs.C15
 open Pandora.Model.C15 Pandora.Spec.C15
@@ -93,5 +94,38 @@ theorem okRun_samples (scName : String) : ∀ (steps : List (Step ReqDef)) (rcs 
     have h1 := okEvents_samples scName st r c
     simp only [okRun, List.countP_append, h1.1, h1.2, ih.1, ih.2, List.length_cons]
     exact ⟨by omega, trivial⟩
+
+/-! ### provider → gun: the shots of the ammo a consumer takes, one after the other -/
+
+/-- an instance shoots the ammo it is handed, in order (a failed shot does not stop the instance) -/
+def shootAll {Req Resp : Type} (w : World Req Resp) (source : Val) : List (Scenario ReqDef) → GState Req → Option (GState Req)
+  | [], g => some g
+  | sc :: r, g =>
+    match shoot w source sc g with
+    | none => none
+    | some (_, g') => shootAll w source r g'
+
+theorem shootAll_verdict {Req Resp : Type} (w : World Req Resp) (nm : Req → String) (hnm : Named w nm) (source : Val) :
+    ∀ (ammos : List (Scenario ReqDef)) (g g' : GState Req), shootAll w source ammos g = some g' →
+      ∃ evss : List (List OEv), obsLog nm g'.log = obsLog nm g.log ++ evss.flatten ∧
+        evss.length = ammos.length ∧
+        ∀ p ∈ ammos.zip evss, shotVerdict (String.ofList p.1.name) (p.1.steps.map (·.req.name)) p.2 = "ok"
+  | [], g, g', h => by
+    simp only [shootAll] at h; cases h
+    exact ⟨[], by simp, rfl, by simp⟩
+  | sc :: r, g, g', h => by
+    simp only [shootAll] at h
+    split at h
+    · cases h
+    · rename_i b g1 hs
+      obtain ⟨evs, he, hs'⟩ := shootLoop_shape w nm hnm source (String.ofList sc.name) sc.steps [] g b g1 hs
+      obtain ⟨evss, hes, hlen, hall⟩ := shootAll_verdict w nm hnm source r g1 g' h
+      refine ⟨evs :: evss, ?_, by simp [hlen], ?_⟩
+      · rw [hes, he, List.flatten_cons, List.append_assoc]
+      · intro p hp
+        simp only [List.zip_cons_cons, List.mem_cons] at hp
+        rcases hp with rfl | hp
+        · exact verdict_of_shape hs'
+        · exact hall p hp
 
 end Pandora.Proofs.C15
